@@ -33,9 +33,11 @@ def scenarios(wd):
     return S
 
 
-def build_script(cmds, fail=None):
+def build_script(cmds, fail=None, uniq=""):
     out = ["wrap reset"]
     for c in cmds:
+        if c.startswith("bin ") and not c.endswith("/dev/full"):
+            c = c + uniq  # one output file per run: runs execute in parallel
         if c == "@":
             # counters restart here so k counts calls of the affected operation only... keep global: arm k-th call from now
             if fail:
@@ -82,7 +84,7 @@ def run(tier):
             k_total = counts[n][s] - pre[n][s]
             for k in range(1, k_total + 1):
                 jobs.append((n, s, k))
-    res = common.run_cases(binary, [build_script(S[n], (s, k)) for (n, s, k) in jobs], tag="c17f")
+    res = common.run_cases(binary, [build_script(S[n], (s, k), ".%s%d" % (s, k)) for (n, s, k) in jobs], tag="c17f")
     stats = {"scenarios": len(names), "failpoints": len(jobs), "fired": 0, "per_symbol": {s: 0 for s in SYMS}, "calls_per_scenario": {n: {s: counts[n][s] - pre[n][s] for s in SYMS if counts[n][s] - pre[n][s]} for n in counts}}
     for (n, s, k), r in zip(jobs, res):
         v.count()
@@ -132,6 +134,8 @@ def run(tier):
             for i in range(at + 1, len(cmds)):
                 if cmds[i].startswith("bin ") and rec_of(i).split()[1] == "0":
                     path = cmds[i].split()[2]
+                    if path != "/dev/full":
+                        path += ".%s%d" % (s, k)
                     dump = [rec_of(j).split()[1] for j in range(i, len(cmds)) if cmds[j].startswith("dump 0 0 300")]
                     if path != "/dev/full" and dump:
                         try:
